@@ -173,11 +173,56 @@ pub fn build_esds(tn: u32, region: usize) -> Vec<u8> {
     file
 }
 
+/// fragment-walk variant: one movie fragment with K track fragments of the same track whose runs are
+/// empty, followed by one run of M samples.  Finding the offset of the last sample adds up the M
+/// sizes before it; if every size lookup searches the K track fragments again, one call costs
+/// M x K steps for a file of about 60 K + 4 M bytes (no stream operation involved: CPU only).
+pub fn build_fragwalk(k: u32, m: u32) -> Vec<u8> {
+    let mut out = ser(&FtypBox { major_brand: FourCC::from(*b"isom"), minor_version: 0, compatible_brands: vec![] });
+    let mut moov = MoovBox::default();
+    moov.mvhd.timescale = 1000;
+    moov.mvhd.next_track_id = 2;
+    moov.traks.push(trak(1, 4, false));
+    let mut mvex = MvexBox::default();
+    mvex.trex.track_id = 1;
+    mvex.trex.default_sample_duration = 10;
+    moov.mvex = Some(mvex);
+    out.extend_from_slice(&ser(&moov));
+    let mut moof = MoofBox::default();
+    moof.mfhd.sequence_number = 1;
+    let tfhd = TfhdBox { version: 0, flags: TfhdBox::FLAG_DEFAULT_BASE_IS_MOOF, track_id: 1, ..Default::default() };
+    for _ in 0..k {
+        moof.trafs.push(TrafBox { tfhd: tfhd.clone(), tfdt: None,
+            trun: Some(TrunBox { version: 0, flags: TrunBox::FLAG_SAMPLE_SIZE, sample_count: 0, ..Default::default() }) });
+    }
+    let mut last = TrunBox { version: 0, flags: TrunBox::FLAG_SAMPLE_SIZE | TrunBox::FLAG_DATA_OFFSET, sample_count: m,
+        data_offset: Some(0), ..Default::default() };
+    last.sample_sizes = vec![1; m as usize];
+    moof.trafs.push(TrafBox { tfhd, tfdt: None, trun: Some(last) });
+    let moof_len = ser(&moof).len();
+    if let Some(t) = moof.trafs.last_mut().and_then(|t| t.trun.as_mut()) {
+        t.data_offset = Some(moof_len as i32 + 8);
+    }
+    out.extend_from_slice(&ser(&moof));
+    out.extend_from_slice(&bx(b"mdat", &vec![0x33u8; m as usize]));
+    out
+}
+
 /// one `reset` + one `block` event (the input is not logged: it is a function of (t, k))
 pub fn run(tn: u32, k: u32, kind: &str, id: u64, out: &mut Out) {
-    let file = if kind == "esds" { build_esds(tn, k as usize * 1024) } else { build(tn, k, kind == "avc") };
+    let file = match kind {
+        "esds" => build_esds(tn, k as usize * 1024),
+        "fragwalk" => build_fragwalk(tn, k),
+        _ => build(tn, k, kind == "avc"),
+    };
     out.ev(json!({"e":"reset","id":format!("amplify-{}-{}-{}", kind, tn, k),"kind":"amplification","len":file.len(),"mode":"open"}));
+    // arm the watchdog (an execution that does not return within HANG_MS ends the process with a `hang` record)
+    if let Ok(mut g) = robust::CUR.lock() {
+        *g = Some((id, "open", json!(format!("amplify {},{},{}", tn, k, kind)), Vec::new()));
+    }
+    robust::arm();
     let o = robust::execute(&file, None);
+    robust::disarm();
     let st = match o.status { "ok" => 0, "err" => 1, _ => 2 } + if o.budget_hit { 4 } else { 0 };
     out.ev(json!({"e":"block","base":id,"mode":"open","n":[o.n.min(robust::SAT)],"ops":[o.ops.min(robust::SAT)],"peak":[o.peak.min(robust::SAT)],
         "maxreq":[o.maxreq.min(robust::SAT)],"bytes":[o.bytes.min(robust::SAT)],"st":[st]}));
